@@ -48,6 +48,19 @@ impl ZbsdiffHeader {
         Ok(header)
     }
 
+    /// Check that a patch of `patch_len` bytes can hold the header and the control and diff
+    /// blocks a validated header announces, before buffers are reserved for them
+    pub fn check_patch_len(&self, patch_len: usize) -> Result<(), ZbsdiffError> {
+        let needed = self.minimum_patch_size();
+        if needed > patch_len {
+            return Err(ZbsdiffError::InsufficientData {
+                needed,
+                available: patch_len,
+            });
+        }
+        Ok(())
+    }
+
     /// Validate header fields for correctness and reasonable limits
     pub fn validate(&self) -> Result<(), ZbsdiffError> {
         // Reasonable size limits to prevent DoS attacks (1GB)
